@@ -91,7 +91,7 @@ def make_world(seed):
     truth_shared = []
     for ci in range(2):
         chrom = "chr%d" % (ci + 1)
-        w.add_chrom(chrom, 90000)
+        w.add_chrom(chrom, 160000)
         pos = 2000
         k = 0
         for order in ("A-first", "B-first"):
@@ -106,6 +106,25 @@ def make_world(seed):
                                  n_iso=rng.randint(1, 3), site_class=sc,
                                  hidden_kinds=("nnic_skip", "nnic_site") if sc in ("canonical", "gc_ag", "opposite") else ())
             pos = end + rng.randint(2500, 3500)
+    # twin loci: identical exon coordinates and strand on chr1 and chr2, different splice-site classes
+    # (an answer memorised for one chromosome must not be reused for the other)
+    pos = 125000
+    for k, (sc1, sc2) in enumerate((("canonical", "none"), ("none", "canonical"), ("canonical", "opposite"))):
+        strand = "+-"[k % 2]
+        ex = []
+        p = pos
+        for j in range(4):
+            L_ = rng.randint(150, 300)
+            ex.append((p, p + L_ - 1))
+            p += L_ + rng.randint(400, 700)
+        for chrom, sc in (("chr1", sc1), ("chr2", sc2)):
+            g = Gene("W%s_%d" % (chrom[-1], k + 1), chrom, strand)
+            g.transcripts.append(Transcript(g.id + ".t1", g.id, chrom, strand, list(ex), True, "twin"))
+            g.site_class = sc
+            for intr in g.transcripts[0].introns:
+                w.plant_sites(chrom, intr, strand, sc)
+            w.genes.append(g)
+        pos = p + 3000
     # reads
     for g in w.genes:
         for t in g.transcripts:
